@@ -35,6 +35,10 @@ def _raised_inside_sut(tb):
     return last_k > last_v
 
 
+class _NoReturn(BaseException):
+    """Raised by the per-run alarm; BaseException so that 'except Exception' inside the code under test does not swallow it."""
+
+
 def get_machine(name):
     from . import machines
 
@@ -49,9 +53,26 @@ def run_case(machine, case, keep_records=False):
     log = EventLog(case["seed"], keep=keep_records)
     prop = case.get("property") or machine.properties[0]
     herr = None
+    cap = getattr(machine, "no_return_cap", None)  # machines whose runs take milliseconds: an operation that does not come back is a verdict
+    if cap:
+        import signal
+
+        def _on_alarm(signum, frame):
+            raise _NoReturn()
+
+        _old = signal.signal(signal.SIGALRM, _on_alarm)
+        signal.setitimer(signal.ITIMER_REAL, float(cap))
     with world:
         try:
-            machine.execute(case, world, res, log)
+            try:
+                machine.execute(case, world, res, log)
+            finally:
+                if cap:
+                    signal.setitimer(signal.ITIMER_REAL, 0.0)
+                    signal.signal(signal.SIGALRM, _old)
+        except _NoReturn:
+            res.violation = Violation(prop, "no-return", "operation", "an operation on the real objects did not return within %d s of wall time (runs of this machine take "
+                                      "milliseconds): endless recursion / re-evaluation in a graph that should have stayed acyclic?" % cap, step=log.n).to_json()
         except Violation as v:
             res.derived_case = v.extra.pop("derived_case", None)
             res.violation = v.to_json()
